@@ -118,6 +118,24 @@ func (m *fsmMonitor) check(preBz []byte, inst *sm.FSMInstance, ev string, args [
 		return
 	}
 	// from here: accepted
+	// C05 "each of the n invited participants ...; an event that is not acceptable in the current state is rejected without
+	// changing anything": an answer, a contribution or an error report naming a participant that was not invited is acceptable
+	// in no state - whatever else it carries (stamp, content)
+	if pre.Payload != nil && pre.Payload.SignatureProposalPayload != nil && len(args) > 1 {
+		switch args[0] {
+		case "sigPart", "commit", "deal", "response", "masterKey", "dkgErr":
+			m.count("C05.unknown_participant")
+			q := pre.Payload.SignatureProposalPayload.Quorum
+			if _, in := q[atoi(args[1])]; !in && len(q) > 0 {
+				what := "the round stays in " + post.State
+				if post.State != pre.State {
+					what = "the round went " + pre.State + " -> " + post.State
+				}
+				m.report("C05", "unknown_participant", fmt.Sprintf("%s naming participant %s, who is not among the invited %s, stamped %s, was accepted: %s (deadline of the invitations %s)",
+					ev, args[1], invitedShort(q), stampText(args), what, relT(pre.Payload.SignatureProposalPayload.ExpiresAt)), idx, ev, args)
+			}
+		}
+	}
 	// C05 cancel absorbing, phase order
 	m.count("C05.phase_order")
 	if isCancelledDkg(pre.State) && !isCancelledDkg(post.State) {
